@@ -338,7 +338,7 @@ PROPS = {
         ],
         "ties": C_TIES,
         "suites": [
-            {"kind": "c", "suite": "c-ops", "quick": {"cases": 60, "len": 80}, "thorough": {"cases": 2500, "len": 150}},
+            {"kind": "c", "suite": "c-ops", "quick": {"cases": 120, "len": 80}, "thorough": {"cases": 2500, "len": 150}},
             {"kind": "c", "suite": "c-exh", "quick": {"cases": 240, "len": 3}, "thorough": {"cases": 2600, "len": 4}},
         ],
         "nontrivial": "a case is non-trivial when the tree grew beyond a single leaf and at least one deletion succeeded; every case picks one of three ways to drive the extension (the type, a trivial Python subclass, the package wrapper) and one of four key representations (exact int, exact str, user-defined class with rich comparison, ints beyond C long); iterators are created, advanced, interleaved with mutations and advanced again; c-exh enumerates every set/del history of the given depth over 3 keys in the middle of a multi-leaf tree; the full structural dump (incl. emptied leaves) is compared with the model; distinct = distinct op-line sequences",
@@ -359,7 +359,7 @@ PROPS = {
         ],
         "ties": C_TIES,
         "suites": [
-            {"kind": "c", "suite": "c-ops", "quick": {"cases": 60, "len": 80}, "thorough": {"cases": 2500, "len": 150}},
+            {"kind": "c", "suite": "c-ops", "quick": {"cases": 120, "len": 80}, "thorough": {"cases": 2500, "len": 150}},
             {"kind": "c", "suite": "c-caps", "quick": {"cases": 1, "len": 1}, "thorough": {"cases": 1, "len": 1}},
         ],
         "nontrivial": "as C12; in addition after every mutation sys.getrefcount of every tracked key and value object minus its baseline must equal the number of tree slots holding it (from _verif_dump), and zero after the tree is destroyed; the model's slot multiset is compared with the implementation's (`refs` lines); every generated history is replayed under AddressSanitizer; c-caps drives capacities 0, 3, 4, …, 65535, 65536, 65537, 65540, 131072, 2^31-1 through all three ways of constructing the object; a crash or sanitizer report of the driver process is an oracle failure with the operations executed so far as replay",
